@@ -25,7 +25,7 @@ pub enum State {
     HunkPlus(DiffType, Option<String>), // In hunk; added line (diff_type, raw_line)
     MergeConflict(MergeParents, merge_conflict::MergeConflictCommit),
     SubmoduleLog, // In a submodule section, with gitconfig diff.submodule = log
-    SubmoduleShort(String), // In a submodule section, with gitconfig diff.submodule = short
+    SubmoduleShort(Option<String>), // In a submodule section, with gitconfig diff.submodule = short (the old commit, until its new twin has been seen)
     Blame(String), // In a line of `git blame` output (key).
     GitShowFile,  // In a line of `git show $revision:./path/to/file.ext` output
     Grep(GrepType, grep::LineType, String, Option<usize>), // In a line of `git grep` output (grep_type, line_type, path, line_number)
@@ -158,6 +158,8 @@ impl<'a> StateMachine<'a> {
                 }
             }
 
+            self.handle_pending_submodule_short_commit(false)?;
+
             // Every method named handle_* must return std::io::Result<bool>.
             // The bool indicates whether the line has been handled by that
             // method (in which case no subsequent handlers are permitted to
@@ -182,6 +184,7 @@ impl<'a> StateMachine<'a> {
                 || self.emit_line_unchanged()?;
         }
 
+        self.handle_pending_submodule_short_commit(true)?;
         self.handle_pending_line_with_diff_name()?;
         self.painter.paint_buffered_minus_and_plus_lines();
         self.painter.emit()?;
